@@ -22,6 +22,10 @@ the literal again:
   * `[x for x in it]` is read as `list(it)`;
   * literal expressions are folded: `{…} | {…}`, `[…] + […]`, `'a' + 'b'`, f-strings / `%` / `.format` of
     literals, `list(<literal>)`, `set(…)`, `tuple(…)`, `sorted(<literal of strings>)`, `<literal>.copy()`;
+  * `T = helper(a, b)` where the module-level helper only builds a fresh value from literals under call-free tests
+    of its parameters (`v = [...]; if p is True: v.extend([...]); return v`) is read as those statements with `v`
+    renamed to T (a plain name or attribute chain) and the parameters to the arguments (plain names / attribute
+    chains): nothing in such a body can raise or be observed half-way, so building the value in place is the same;
   * `NAME.search(x)` (match, fullmatch, findall, finditer, sub, subn, split) on a constant
     `NAME = re.compile(<string literal>)` without flags becomes `re.search(<string literal>, x)`.
 
@@ -373,6 +377,128 @@ class _Propagate(ast.NodeTransformer):
         return self.generic_visit(node)
 
 
+# ---------------------------------------------------------------------------------------------------------
+# a value built by a tiny helper: `T = helper(a, b)` where the helper builds a fresh value from literals
+# ---------------------------------------------------------------------------------------------------------
+
+def _pure_read(node: ast.AST) -> bool:
+    """a plain name or an attribute chain on a plain name, loaded"""
+    while isinstance(node, ast.Attribute):
+        node = node.value
+    return isinstance(node, ast.Name)
+
+
+def _call_free(node: ast.AST) -> bool:
+    return not any(isinstance(n, (ast.Call, ast.Await, ast.Yield, ast.YieldFrom, ast.NamedExpr, ast.Lambda))
+                   for n in ast.walk(node))
+
+
+def _builder_body(fn: ast.FunctionDef):
+    """(local name, statements without the final return) when the helper has the shape
+         v = <literal display>;  [if <call-free test>:]  v.<method>(<literals>) …;  return v
+       — it builds a fresh value from literals under tests of its parameters and cannot raise or be observed half-way;
+       None otherwise"""
+    a = fn.args
+    if a.vararg or a.kwarg or a.kwonlyargs or a.posonlyargs or a.defaults or fn.decorator_list:
+        return None
+    body = [b for b in fn.body if not (isinstance(b, ast.Expr) and isinstance(b.value, ast.Constant))]
+    if len(body) < 2 or not isinstance(body[-1], ast.Return) or not isinstance(body[-1].value, ast.Name):
+        return None
+    v = body[-1].value.id
+    if v in {p.arg for p in a.args}:
+        return None
+    first = body[0]
+    if not (isinstance(first, ast.Assign) and len(first.targets) == 1 and isinstance(first.targets[0], ast.Name)
+            and first.targets[0].id == v and isinstance(first.value, (ast.List, ast.Set, ast.Dict)) and _is_literal(first.value)):
+        return None
+
+    def grow(st) -> bool:
+        return (isinstance(st, ast.Expr) and isinstance(st.value, ast.Call) and isinstance(st.value.func, ast.Attribute)
+                and isinstance(st.value.func.value, ast.Name) and st.value.func.value.id == v
+                and st.value.func.attr in ('extend', 'append', 'add', 'update') and not st.value.keywords
+                and all(_is_literal(x) for x in st.value.args))
+    for st in body[1:-1]:
+        if grow(st):
+            continue
+        if isinstance(st, ast.If) and not st.orelse and _call_free(st.test) and all(grow(x) for x in st.body) \
+                and not any(isinstance(n, ast.Name) and n.id == v for n in ast.walk(st.test)):
+            continue
+        return None
+    return v, body[:-1]
+
+
+class _Subst(ast.NodeTransformer):
+    def __init__(self, m: Dict[str, ast.AST]):
+        self.m = m
+
+    def visit_Name(self, node: ast.Name):
+        if node.id in self.m:
+            new = copy.deepcopy(self.m[node.id])
+            if hasattr(new, 'ctx'):
+                new.ctx = node.ctx.__class__()
+            return ast.copy_location(new, node)
+        return node
+
+
+def _inline_builders(tree: ast.Module) -> None:
+    """in place: `T = helper(x, y)` -> the helper's statements with its local renamed to T and its parameters to the
+    arguments, for helpers of the `_builder_body` shape, T and the arguments being plain names / attribute chains"""
+    helpers: Dict[str, list] = {}
+    for st in tree.body:
+        if isinstance(st, ast.FunctionDef):
+            helpers.setdefault(st.name, []).append(st)
+    shapes = {}
+    for name, fns in helpers.items():
+        if len(fns) == 1:
+            b = _builder_body(fns[0])
+            if b is not None:
+                shapes[name] = (fns[0], b)
+    if not shapes:
+        return
+    scaled = [False]
+
+    def expand(stmts):
+        out = []
+        for st in stmts:
+            for field in ('body', 'orelse', 'finalbody'):
+                if isinstance(getattr(st, field, None), list) and not isinstance(st, (ast.FunctionDef, ast.ClassDef)):
+                    setattr(st, field, expand(getattr(st, field)))
+            if isinstance(st, ast.Try):
+                for h in st.handlers:
+                    h.body = expand(h.body)
+            if (isinstance(st, ast.Assign) and len(st.targets) == 1 and _pure_read(st.targets[0])
+                    and isinstance(st.value, ast.Call) and isinstance(st.value.func, ast.Name)
+                    and st.value.func.id in shapes and not st.value.keywords
+                    and all(_pure_read(x) for x in st.value.args)):
+                fn, (v, body) = shapes[st.value.func.id]
+                # the helper's name must mean the helper (bound once, as a def) and the arity must fit
+                if len(st.value.args) == len(fn.args.args) and \
+                        sum(1 for n in ast.walk(tree) if isinstance(n, ast.FunctionDef) and n.name == fn.name) == 1:
+                    m = {p.arg: x for p, x in zip(fn.args.args, st.value.args)}
+                    m[v] = st.targets[0]
+                    new = [_Subst(m).visit(copy.deepcopy(b)) for b in body]
+                    if not scaled[0]:
+                        # line numbers keep the order of the statements (some extractors compare them): every line
+                        # number of the module is multiplied by 1000, the statements put in place get L, L+1, …
+                        for x in ast.walk(tree):
+                            for attr in ('lineno', 'end_lineno'):
+                                if isinstance(getattr(x, attr, None), int):
+                                    setattr(x, attr, getattr(x, attr) * 1000)
+                        scaled[0] = True
+                    for i, b in enumerate(new):
+                        for x in ast.walk(b):
+                            ast.copy_location(x, st)
+                            x.lineno = st.lineno + i
+                            x.end_lineno = st.lineno + i
+                    out.extend(new)
+                    continue
+            out.append(st)
+        return out
+    for n in ast.walk(tree):
+        if isinstance(n, (ast.FunctionDef, ast.AsyncFunctionDef)) and n.name not in shapes:
+            n.body = expand(n.body)
+
+
 def normalise(tree: ast.Module, keep=()) -> ast.Module:
     """see the module docstring; returns a new tree, the argument is not modified.  `keep`: constant names a
     translator recognises BY NAME (e.g. `PAGE` in `tag.replace(PAGE, '')`): they are left in place."""
@@ -424,6 +550,10 @@ def normalise(tree: ast.Module, keep=()) -> ast.Module:
             pats = {}
         new = _Propagate(immut, mut, pats, readonly).visit(tree)
         new = _Folder().visit(new)
+        try:
+            _inline_builders(new)
+        except Exception:
+            pass
         ast.fix_missing_locations(new)
         env = (immut, mut, pats, readonly)
         for x in ast.walk(new):         # so that a template can be read the way the node it is matched with was read
